@@ -5,10 +5,10 @@ cd "$W" || exit 2
 git diff -- src > /var/tmp/confirm_$$.diff
 [ -s /var/tmp/confirm_$$.diff ] || { git apply patch.diff || exit 2; }
 make -C src -j8 flex >/dev/null 2>&1 || { echo "BUILD FAILED with change"; exit 1; }
-sh ./demo.sh >/dev/null 2>&1; echo "demo with change: rc=$?"
+bash ./demo.sh >/dev/null 2>&1; echo "demo with change: rc=$?"
 make -C tests clean >/dev/null 2>&1; make -j12 check 2>&1 | grep -E "^# (TOTAL|PASS|FAIL)" | tr '\n' ' '; echo
 git checkout -- src
 make -C src -j8 flex >/dev/null 2>&1
-sh ./demo.sh >/dev/null 2>&1; echo "demo without change: rc=$?"
+bash ./demo.sh >/dev/null 2>&1; echo "demo without change: rc=$?"
 git apply patch.diff
 rm -f /var/tmp/confirm_$$.diff
